@@ -68,6 +68,7 @@ def run(chk):
     if not rule_errors_eval(chk, comp):
         rule_errors(chk, comp)
     rule_strslice(chk, reach)
+    rule_locations_total(chk)
     rule_admitted_kinds(chk)
     rule_elab_total(chk)
     rule_scope_walk(chk)
@@ -630,6 +631,47 @@ def rule_render_source_line(chk):
            "rendering the source line for an error at byte %d aborts (%s): with non-ASCII text on the line, compile() panics while printing a diagnostic (%d of %d positions)"
            % (bad[0][0], bad[0][1][:120], len(bad), n), where(w), sample={"positions": n, "aborting": len(bad)})
     return True
+
+
+def rule_locations_total(chk):
+    """Every diagnostic is rendered through SourceManager::get_file_location / get_file_offset_from_source_location.
+    Both are evaluated on a three-file model for every location a token or an error can carry - every byte of every
+    file, each file's end-of-file slot, and the first location after the last file: none may abort."""
+    import interp as I
+    f = chk.facts
+    new = f.fn("new", "rssl_text", self_ty="SourceManager")
+    add = f.fn("add_file", "rssl_text")
+    gfl = f.fn("get_file_location", "rssl_text")
+    gfo = f.fn("get_file_offset_from_source_location", "rssl_text")
+    if not (new and add and gfl and gfo):
+        chk.unreadable("C08.locations/readable", "SourceManager::new / add_file / get_file_location", "function not found", "rssl_text")
+        return
+    ip = I.Interp(f, max_depth=8)
+    files = [("a.rssl", "ab\ncd"), ("empty.rssl", ""), ("c.rssl", "x\n\ny\n")]
+    try:
+        sm = ip.apply(new, [])
+        for nm, c in files:
+            ip.apply(add, [sm, I.Enum("FileName", None, {"0": nm}), c])
+    except I.Unknown as e:
+        chk.unreadable("C08.locations/readable", "SourceManager::add_file on the three-file model", str(e)[:100], where(add))
+        return
+    total = sum(len(c) + 1 for _, c in files)
+    for key, fn_ in (("get_file_location", gfl), ("get_file_offset_from_source_location", gfo)):
+        aborts, unread = [], None
+        for loc in range(total + 1):
+            try:
+                ip.apply(fn_, [sm, I.Enum("SourceLocation", None, {"0": loc})])
+            except I.Unknown as e:
+                if "abort" in str(e) or "panicking" in str(e) or "overflow" in str(e):
+                    aborts.append((loc, str(e)[:80]))
+                else:
+                    unread = unread or str(e)[:100]
+        if unread and not aborts:
+            chk.unreadable("C08.locations/" + key, "%s on the three-file model" % key, unread, where(fn_))
+            continue
+        chk.ob("C08.locations/" + key, not aborts, "%d locations (every byte, every end-of-file slot, one past the end) decode without aborting" % (total + 1) if not aborts else
+               "%s aborts for location %d of a three-file source manager (%s): compile() panics while rendering a diagnostic at that position (%d of %d locations)"
+               % (key, aborts[0][0], aborts[0][1], len(aborts), total + 1), where(fn_), sample={"locations": total + 1, "aborting": len(aborts)})
 
 
 def rule_strslice(chk, reach):
